@@ -58,6 +58,9 @@ static void body_write_gzip(Tape &t, Ctx &c) {
 	struct isal_gzip_header *h = (struct isal_gzip_header *) hb.p;
 	isal_gzip_header_init(h);
 	h->text = g.text; h->time = g.mtime; h->xflags = g.xfl; h->os = g.os; h->hcrc = g.hcrc;
+	// igzip_lib.h documents hcrc as "Header crc or header crc flag" and isal_read_gzip_header leaves the running CRC there: a struct that was read and is
+	// written again carries an arbitrary non-zero value.  The value is derived from the case itself (no tape cell), three cases in four.
+	if (g.hcrc) { uint64_t hv = mix64(hdr_fp(g) ^ 0x68637263); static const uint32_t nzv[] = {2, 0x100, 0x80000000u, 0xfffffffeu}; if (hv & 3) h->hcrc = (hv & 4) ? nzv[(hv >> 3) & 3] : (((uint32_t) (hv >> 8)) | 0x10) & ~1u; }
 	guard::Buf eb, nb, cb;
 	if (g.has_extra) { eb = guard::alloc_copy(g.extra.data(), g.extra.size(), guard::END, "extra"); guard::set_readonly(eb); h->extra = eb.p; h->extra_len = (uint32_t) g.extra.size(); h->extra_buf_len = (uint32_t) g.extra.size(); }
 	if (g.has_name) { nb = guard::alloc_copy(g.name.c_str(), g.name.size() + 1, guard::END, "name"); guard::set_readonly(nb); h->name = (char *) nb.p; h->name_buf_len = (uint32_t) g.name.size() + 1; }
